@@ -170,6 +170,14 @@ class ExprMixin(object):
                 return BoundMethod(TypeV(td), 'Zero', n)
             if owner == 'Eigen' and name == 'Dynamic':
                 return E.const(-1)
+        if re.fullmatch(r'TypeTraits::Has\w+Interface<.*>::value', txt):
+            # compile-time protocol checks of user functor types (static_assert'ed by the code): the abstract functors conform
+            return E.const(True)
+        m = re.fullmatch(r'(?:!)?std::is_same_v<(\w+),(\w+)>', txt)
+        if m:
+            ta = self.opt.get('type_aliases', {})
+            a, b = (ta.get(x, x) for x in m.groups())
+            return E.const(a == b)
         fail(n, 'no rule for qualified name %s' % txt)
 
     def field_of(self, base, name, n):
@@ -198,7 +206,13 @@ class ExprMixin(object):
     def ev_MemberExpr(self, n):
         inner = kids(n)
         base = self.ev(inner[0]) if inner else self.frame.this
-        return self.field_of(base, n['name'], n)
+        name = n['name']
+        if name.startswith('template '):
+            name = name[len('template '):].strip()
+        v = self.field_of(base, name, n)
+        if isinstance(v, BoundMethod) and v.targs is None and re.search(r'<[^<>]*>\s*$', src_text(n) or ''):
+            v.targs = self.template_args(n)
+        return v
 
     def ev_CXXDependentScopeMemberExpr(self, n):
         inner = kids(n)
@@ -237,10 +251,22 @@ class ExprMixin(object):
         txt = src_text(n) or ''
         name = re.split(r'->|\.', txt)[-1].strip()
         name = re.sub(r'<.*$', '', name)
-        return BoundMethod(base, name, n)
+        name = re.sub(r'^template\s+', '', name)
+        bm = BoundMethod(base, name, n)
+        if re.search(r'<[^<>]*>\s*$', txt):
+            bm.targs = self.template_args(n)
+        return bm
 
     def ev_UnresolvedLookupExpr(self, n):
         name = n.get('name')
+        if name == 'is_same_v':
+            txt = (src_text(n) or '').replace(' ', '')
+            m = re.search(r'is_same_v<(\w+),(\w+)>', txt)
+            if m:
+                # functor types of a function template: given by the task (type_aliases), e.g. WCF -> VoidWaypointsCost
+                ta = self.opt.get('type_aliases', {})
+                a, b = (ta.get(x, x) for x in m.groups())
+                return E.const(a == b)
         v = self.lookup(name)
         if v is not None:
             return v
@@ -681,7 +707,9 @@ class ExprMixin(object):
         return InitList([self.ev(c) for c in kids(n)], n)
 
     def ev_LambdaExpr(self, n):
-        return LambdaV(n, [dict(s) for s in self.frame.scopes], self.frame.this)
+        lv = LambdaV(n, [dict(s) for s in self.frame.scopes], self.frame.this)
+        lv.fname = self.frame.fname      # loops of the lambda body are numbered within (and specified by) the defining function
+        return lv
 
     def ev_CXXThrowExpr(self, n):
         self.emit_throw(n)
